@@ -44,13 +44,25 @@ use zeroize::Zeroize;
 /// Unlike many other heap-allocated big integer libraries, this type is not
 /// arbitrary precision and will wrap at its fixed-precision rather than
 /// automatically growing.
-#[allow(clippy::derived_hash_with_manual_eq)]
-#[derive(Clone, Hash)]
+#[derive(Clone)]
 pub struct BoxedUint {
     /// Boxed slice containing limbs.
     ///
     /// Stored from least significant to most significant.
     pub(crate) limbs: Box<[Limb]>,
+}
+
+impl core::hash::Hash for BoxedUint {
+    fn hash<H: core::hash::Hasher>(&self, state: &mut H) {
+        // `Eq` compares by value, so values that differ only in precision (high zero limbs)
+        // must hash equally: leave the high zero limbs out.
+        let len = self
+            .limbs
+            .iter()
+            .rposition(|limb| limb.0 != 0)
+            .map_or(0, |i| i + 1);
+        self.limbs[..len].hash(state);
+    }
 }
 
 impl BoxedUint {
